@@ -34,7 +34,7 @@ RULE = (
     "result pages, or a key lacking the suffix.")
 ASSUMPTIONS = ['the fake S3 models the ListObjects contract the code relies on: server-side prefix filter, '
                'binary key order, pages of >= 1 key, no Contents entry only when nothing matches']
-MANDATORY = ['source:file', 'source:bytes', 'source:s3', 'xml-declaration', 'non-ascii', 'encoding:latin1', 'encoding:utf16', 'pages>=2',
+MANDATORY = ['source:file', 'source:bytes', 'source:s3', 'xml-declaration', 'non-ascii', 'encoding:latin1', 'encoding:utf16', 'encoding:utf16be', 'pages>=2',
              'key-without-suffix', 'prefix:none', 'prefix:empty', 'listing:empty', 'reader:s3', 'reader:file',
              'constructors-agree']
 
@@ -237,7 +237,7 @@ def documents(draw):
     enc = None
     if not decl and draw(st.integers(0, 3)) == 0:
         from checks.c08 import encodable
-        enc = draw(st.sampled_from(['latin1', 'utf16']))
+        enc = draw(st.sampled_from(['latin1', 'utf16', 'utf16be']))
         if not encodable(text, enc):
             enc = None
     return {'doc': decl + text, 'decl': bool(decl), 'enc': enc}
